@@ -33,6 +33,22 @@ def hasherOf (algo : String) : Except String (Bytes → Bytes) :=
   else if algo == "xxh3" || algo == "" then pure Xxh3.xxh3Hex
   else throw "unknown hash algorithm"
 
+/-- {"op":"hash.file","algo":..,"s":content}: `HashFile`, `HashBytes`, `HashString` are the configured hash of the content -/
+def fileH : Handler := fun j => do
+  let s ← getBytes j "s"
+  let algo ← getStr j "algo"
+  let H ← hasherOf algo
+  let h := jBytes (hashContent H s)
+  pure (Json.mkObj [("bytes", h), ("file", h), ("string", h)])
+
+/-- {"op":"hash.nocache","algo":..,"outputs":[[name, content],..]} (file outputs only): every digest is the hash of the content -/
+def nocacheH : Handler := fun j => do
+  let algo ← getStr j "algo"
+  let H ← hasherOf algo
+  let outs ← getPairs j "outputs"
+  let elems := outs.map (fun o => ([102, 105, 108, 101, 58, 58] ++ o.1, hashContent H (o.2.getD [])))
+  pure (Json.mkObj [("hash", jBytes (outHashNoCache H elems))])
+
 def colon2 : Bytes := [58, 58]
 
 def stateOf (j : Json) : Except String KeyState := do
@@ -92,6 +108,6 @@ def outH : Handler := fun j => do
   pure (Json.mkObj [("hash", jBytes (outHash H ser)), ("ser", jBytesList ser)])
 
 def handlers : List (String × Handler) :=
-  [("hash.sha256", sha), ("hash.xxh3", xxh), ("hash.key", keyH), ("hash.out", outH)]
+  [("hash.sha256", sha), ("hash.xxh3", xxh), ("hash.file", fileH), ("hash.nocache", nocacheH), ("hash.key", keyH), ("hash.out", outH)]
 
 end Grog.Drv.Hash
